@@ -1,7 +1,6 @@
 package jschema
 
 import (
-	stdBytes "bytes"
 	"fmt"
 
 	"github.com/jsightapi/jsight-schema-go-library/bytes"
@@ -103,7 +102,11 @@ func (b *exampleBuilder) buildObjectKey(k internalSchema.ObjectNodeKey) ([]byte,
 	if err != nil {
 		return nil, err
 	}
-	return stdBytes.Trim(ex, `"`), nil
+	// Strip the surrounding quotes only: the example may end in an escaped quote.
+	if len(ex) >= 2 && ex[0] == '"' && ex[len(ex)-1] == '"' {
+		ex = ex[1 : len(ex)-1]
+	}
+	return ex, nil
 }
 
 // rawObjectKey returns the key as it is written in the schema, escape sequences
@@ -135,7 +138,9 @@ func (b *exampleBuilder) buildExampleForArrayNode(node *internalSchema.ArrayNode
 		}
 
 		if ex == nil {
-			continue
+			// An element cut off by the recursion guard ends the array: the
+			// following elements would move to positions they do not fit.
+			break
 		}
 
 		if !first {
